@@ -931,6 +931,26 @@ func (e *Env) callExpr(c *CExpr) val {
 		argn(0)
 		vc.regComp("Spawns", sInt)
 		return intVal(vc.get(e.cur, "Spawns"))
+	case "sends":
+		// sends(ch): number of send attempts on ch made so far by this activation's thread (ghost)
+		argn(1)
+		a := e.eval(c.Args[0])
+		vc.regComp("SendAttempts", "(Array Int Int)")
+		return intVal(sel(vc.get(e.cur, "SendAttempts"), a.t))
+	case "lastsent":
+		// lastsent(ch): the value of the latest send statement on ch by this activation's thread (ghost; channels of
+		// reference-like elements only)
+		argn(1)
+		a := e.eval(c.Args[0])
+		ct, ok := a.typ.Underlying().(*types.Chan)
+		if !ok {
+			e.fail("lastsent of a non-channel")
+		}
+		comp, ok := vc.lastSentComp(ct.Elem())
+		if !ok {
+			e.fail("lastsent of a channel of structs or arrays")
+		}
+		return val{sel(vc.get(e.cur, comp), a.t), ct.Elem(), vc.sortOf(ct.Elem())}
 	case "calls":
 		argn(1)
 		a := e.eval(c.Args[0])
@@ -1410,6 +1430,13 @@ func (e *Env) modTargets(m *ModItem) []compRef {
 	}
 	c, r := e.modTarget(m)
 	out := []compRef{{c, r}}
+	if c == "SendAttempts" {
+		if ct, ok := e.eval(m.Expr.Args[0]).typ.Underlying().(*types.Chan); ok {
+			if comp, ok := vc.lastSentComp(ct.Elem()); ok {
+				out = append(out, compRef{comp, r})
+			}
+		}
+	}
 	if m.MapOf {
 		out = append(out, compRef{e.modTarget2(m), r})
 	}
@@ -1466,6 +1493,11 @@ func (e *Env) modTarget(m *ModItem) (comp, ref string) {
 			a := e.eval(c.Args[0])
 			vc.regComp("ChanClosed", "(Array Int Bool)")
 			return "ChanClosed", a.t
+		case "sends":
+			// the send history of a channel (count and latest value)
+			a := e.eval(c.Args[0])
+			vc.regComp("SendAttempts", "(Array Int Int)")
+			return "SendAttempts", a.t
 		case "cell":
 			a := e.eval(c.Args[0])
 			pt, ok := a.typ.Underlying().(*types.Pointer)
